@@ -33,7 +33,10 @@ Definition mset_wf (st : truf) (m : mset) : Prop :=
   NoDup (map fst m) /\
   forall k c, aget k m = Some c -> dominant st k /\ NoDup c /\ forall j, In j c -> dominant st j.
 
-Record tinv (E : list (nat * nat)) (st : truf) : Prop := mkTinv {
+(* [P] = the live class ids that are allowed to have no entry in the two connection maps:
+   [tinv] (P empty) is what sequences of add maintain; [tinv_weak] (P everything) is what sequences of add and
+   add_node / add_node_new maintain (add_node creates a class without entries; no code path needs them). *)
+Record tinvP (P : nat -> Prop) (E : list (nat * nat)) (st : truf) : Prop := mkTinv {
   (* W: well-formedness of the five fields *)
   w_subs_range : forall s f, aget s (t_subs st) = Some f -> s < nsets st /\ f < nsets st;
   w_subs_keys : NoDup (map fst (t_subs st));
@@ -45,7 +48,7 @@ Record tinv (E : list (nat * nat)) (st : truf) : Prop := mkTinv {
   w_ids_keys : NoDup (map fst (t_ids st));
   w_conn : mset_wf st (t_conn st);
   w_rev : mset_wf st (t_rev st);
-  w_present : forall d, dominant st d -> ahas d (t_conn st) = true /\ ahas d (t_rev st) = true;
+  w_present : forall d, dominant st d -> P d \/ (ahas d (t_conn st) = true /\ ahas d (t_rev st) = true);
   w_nonempty : forall d, dominant st d -> exists x, mem_of st d x;
   (* G: the class graph: rev is the converse of conn off the diagonal; conn is transitive and antisymmetric *)
   g_conv : forall a b, a <> b -> (cn st a b <-> rv st b a);
@@ -58,3 +61,21 @@ Record tinv (E : list (nat * nat)) (st : truf) : Prop := mkTinv {
   m_complete : forall a b x y, dominant st a -> dominant st b -> mem_of st a x -> mem_of st b y ->
                rtc E x y -> a = b \/ cn st a b
 }.
+
+Arguments w_subs_range {P} E st _. Arguments w_subs_keys {P} E st _. Arguments w_subs_dom {P} E st _.
+Arguments w_sets_nodup {P} E st _. Arguments w_subsumed_empty {P} E st _. Arguments w_ids_mem {P} E st _.
+Arguments w_mem_ids {P} E st _. Arguments w_ids_keys {P} E st _. Arguments w_conn {P} E st _.
+Arguments w_rev {P} E st _. Arguments w_present {P} E st _. Arguments w_nonempty {P} E st _.
+Arguments g_conv {P} E st _. Arguments g_trans {P} E st _. Arguments g_antisym {P} E st _.
+Arguments m_ids {P} E st _. Arguments m_class {P} E st _. Arguments m_conn {P} E st _. Arguments m_complete {P} E st _.
+
+Notation tinv := (tinvP (fun _ : nat => False)).
+Notation tinv_weak := (tinvP (fun _ : nat => True)).
+
+Lemma tinvP_mono : forall (P Q : nat -> Prop) E st, (forall d, P d -> Q d) -> tinvP P E st -> tinvP Q E st.
+Proof.
+  intros P Q E st HPQ H. destruct H. constructor; try assumption.
+  intros d Hd. destruct (w_present0 d Hd) as [Hp|Hk]; [left; apply HPQ; exact Hp|right; exact Hk].
+Qed.
+Lemma tinv_weaken : forall P E st, tinvP P E st -> tinv_weak E st.
+Proof. intros P E st H. apply (tinvP_mono P (fun _ => True)); [intros; exact I|exact H]. Qed.
